@@ -227,6 +227,59 @@ def run(index, tier="quick", seed=0) -> Result:
                     f"for nearly equal axes (relative gaps far below the tolerance but not zero) the limit formula replaces the general one")
         else:
             res.ok("BR-1", k, nontrivial=False)
+    # ------------------------------------------------------------ BR-2 a degenerate-case shortcut is entered only when it is valid
+    # A return taken under an equality test between semi-axes (the sphere / circle limit) may ignore a size attribute that the
+    # other returns of the member use only if the test itself ties that attribute down (it is among the data the compared
+    # values are computed from, e.g. min and max of *all* axes).  `if self.a == self.c: <sphere formula in a>` ignores b.
+    from ..components import PathConds
+    SIZE = {"_a", "_b", "_c", "_radius"}
+    nb2 = 0
+    for cname in CURVED:
+        cls = index.cls(cname)
+        for pname in sorted(_all_props(index, cls)):
+            p_ = index.effective_prop(cls, pname)
+            if p_ is None or p_.getter is None or p_.getter.cls is None or p_.getter.cls.name not in CURVED:
+                continue
+            pc = PathConds()
+            it_ = Interp(index, [pc])
+            try:
+                r_ = it_.run_entry(p_.getter, cls)
+            except AnalysisError:
+                continue
+            rets = r_["returns"]
+            if len(rets) < 2:
+                continue
+            used = [frozenset(a for (o, a) in v.deps if o == "self" and a in SIZE) for (v, s_, n_) in rets]
+            allused = frozenset().union(*used)
+            k = f"{cname}.{pname}"
+            for (v, s_, n_), u in zip(rets, used):
+                missing = allused - u
+                conds = [(pc.tests[i][0], t) for (i, t) in s_.comp[pc.name] if i in pc.tests]
+                eqs = []
+                for (tv, truth) in conds:
+                    x = tv.extra
+                    if x and x[0] == "cmp" and len(x[1].ops) == 1 and ((isinstance(x[1].ops[0], ast.Eq) and truth) or (isinstance(x[1].ops[0], ast.NotEq) and not truth)):
+                        eqs.append((x[2], x[3][0], x[1]))
+                    elif x and x[0] == "cmp" and len(x[1].ops) > 1 and truth and all(isinstance(o_, ast.Eq) for o_ in x[1].ops):
+                        for rr_ in x[3]:
+                            eqs.append((x[2], rr_, x[1]))          # a == b == c
+                    elif x and x[0] == "isclose" and truth:
+                        eqs.append((x[2], x[3], None))
+                if not eqs:
+                    continue
+                nb2 += 1
+                tied = frozenset(a for (l_, r__, _n) in eqs for vv in (l_, r__) for (o, a) in vv.deps if o == "self")
+                shown = next((ast.unparse(n__) for (_l, _r, n__) in eqs if n__ is not None), "the axes are (nearly) equal")
+                loose = sorted(missing - tied)
+                if loose:
+                    res.bad("BR-2", f"{k}:ignores:{','.join(loose)}", f"{p_.getter.file}:{getattr(n_, 'lineno', p_.getter.lineno)}",
+                            f"{k}: the shortcut taken when `{shown[:40]}` holds returns a value "
+                            f"that does not depend on {', '.join('self.' + a for a in loose)}, although the general formula does and the test does not tie "
+                            f"{'it' if len(loose) == 1 else 'them'} to the axes it compares: wrong whenever only the compared axes are equal")
+                else:
+                    res.ok("BR-2", k, sample={"shortcut": k, "ignored": sorted(missing), "tied_by_test": sorted(tied)})
+    if nb2 == 0:
+        res.ok("BR-2", "no degenerate-case shortcut returns in the curved classes", nontrivial=False)
     # ------------------------------------------------------------ SORT-1
     for cname, member, axes in (("Ellipse", "eccentricity", ("a", "b")), ("Ellipse", "perimeter", ("a", "b")),
                                 ("Ellipsoid", "surface_area", ("a", "b", "c"))):
@@ -300,6 +353,13 @@ def _diag_items(index, cname):
         if e.type == "diag" and e.arg is not None and e.arg.items and e.func.cls is not None and e.func.cls.name == cname:
             return e.arg.items
     return None
+
+
+def _all_props(index, cls):
+    names = set()
+    for c in cls.mro:
+        names |= set(c.props)
+    return names
 
 
 def _defn(nm):
